@@ -195,7 +195,16 @@ func (m *c20m) exp(e ast.Exp) {
 		for i := range x.KeyExps {
 			for j := 0; j < i; j++ {
 				if x.KeyExps[i] != nil && x.KeyExps[j] != nil && c20same(x.KeyExps[i], x.KeyExps[j]) {
-					m.hit(5, x.Loc)
+					// reported on the later of the two keys (on the constructor for a numeric key)
+					l := x.Loc
+					switch k := x.KeyExps[i].(type) {
+					case *ast.StringExp:
+						l = k.Loc
+					case *ast.NameExp:
+						l = k.Loc
+					}
+					m.hit(5, l)
+					break
 				}
 			}
 		}
@@ -239,6 +248,11 @@ var c20templates = []string{
 	/* 10 */ "local r = \x01 == 1\x1b5\nlocal s = \x01 ~= 2\x1b0\nlocal t = \x01 < 1.5\n",
 	/* 11 */ "local f = function()\n return { k = (\x01 == \x02), [1] = g(\x01 or true) }\nend\n",
 	/* 12 */ "\x01, \x02 = \x02, \x01\n\x01.x, \x02.y = \x01.x, \x03.y\n",
+	// keys that are equal across nesting levels are not duplicates; keys equal on either side of a nested
+	// constructor (directly, in a call argument, in a closure body) are
+	/* 13 */ "local x = { \x01 = 1,\n p = { \x02 = 1,\n \x03 = 2 },\n \x04 = 3 }\n",
+	/* 14 */ "local x = { \x01 = 1,\n p = f({ \x02 = 1 }),\n q = function() return { \x03 = 1 } end,\n \x04 = 3 }\n",
+	/* 15 */ "g = { { \x01 = 1 },\n { \x02 = 2 },\n \x03 = { [\x1c] = 1, [\x1d] = 2 },\n [\"\x04\"] = 3 }\n",
 }
 
 func VerifRun_C20() {
